@@ -328,7 +328,8 @@ static void checkC10(Ctx& c, long idx, Rng& r) {
     if (m > 0) {
         Matrix G; matter.calcG(s, G); std::vector<int> F; for (int i = 0; i < nu; ++i) if (freeUD[i]) F.push_back(i);
         std::vector<std::vector<double>> rows; for (int j = 0; j < m; ++j) { std::vector<double> row; for (int i : F) row.push_back(G(j, i)); rows.push_back(row); }
-        int rank = 0; double minr = 0; if (!F.empty()) rangeResidual(rows, std::vector<double>(F.size(), 0.0), &rank, &minr);
+        double gfull = 0; for (int j = 0; j < m; ++j) { double sq = 0; for (int i = 0; i < nu; ++i) sq += G(j, i) * G(j, i); gfull = std::max(gfull, std::sqrt(sq)); }
+        int rank = 0; double minr = 0; if (!F.empty()) rangeResidual(rows, std::vector<double>(F.size(), 0.0), &rank, &minr, std::max(gfull, 1e-3));   // absolute floor: an all-zero row (constraint between welded bodies) is rank deficient
         if (rank < m || minr < 1e-4) { consOK = false; c.skip("constraints-rank-deficient-on-free-mobilities"); c.obs("rank-deficient:" + ckey); }
         else {
             double gs = mmaxabs(G) * ascale + 1;
